@@ -185,6 +185,9 @@ func runC09(c *vf.Case) {
 
 	check := func(op string) bool {
 		ok := true
+		if i := strings.IndexByte(op, '/'); i >= 0 {
+			op = op[:i] // finding keys carry the method, not the argument class
+		}
 		if got := b.Saved(); !bytes.Equal(got, m.saved) {
 			c.Failf("saved-mismatch-after-"+op, "after %s: Saved() differs from model (len got %d want %d, first diff at %d)", op, len(got), len(m.saved), firstDiff(got, m.saved))
 			ok = false
